@@ -57,13 +57,14 @@ SETTER = {'description': 'setDescription', 'reference': 'setReference', 'organiz
           'units': 'setUnits', 'productrelease': 'setProductRelease'}
 
 WS = [chr(c) for c in (9, 10, 11, 12, 13, 28, 29, 30, 31, 32, 133, 160, 5760, 8192, 8232, 8233, 8239, 12288)]
-SPECIAL = ['\\', '\\\\', '\\n', '\\x', '\\x4', '\\x41', '\\u12', '\\u0041', '\\U0001F600', '\\N{DASH}', '\\N', '\\0', '\\101', '\\8', "'", "'''", '\\\'',
+SPECIAL = ['\\u0027', '\\u003c', '\\u0026', '\\u003e', '\\u2028', '\\u0022', '&amp;', '&#39;',      # spelled-out escapes of JSON / HTML writers
+           '\\', '\\\\', '\\n', '\\x', '\\x4', '\\x41', '\\u12', '\\u0041', '\\U0001F600', '\\N{DASH}', '\\N', '\\0', '\\101', '\\8', "'", "'''", '\\\'',
            '{{ 1+1 }}', '{% raw %}', '#', '%s', '%(x)s', '$', '`', '\0', '\x01', '\x7f', '\x1b', 'é', 'ß', 'Ω', '中', ' ', '﻿', '\U0001D6C0',
            '\U0001F600', '\udc80' if False else 'ÿ', '<', '>', '&', '\\"'[:1],
            # code points that Unicode normalisation would replace (a text filter may touch white space only)
            '\u2126', '\u212a', '\u212b', 'e\u0301', 'A\u030a', '\uf900', '\ufb01', '\u1e9b\u0323', '\u00b5', '\u2460']
 WORDS = ['the', 'quick', 'brown', 'fox', 'C:', 'new', 'table', 'x' * 90, 'a-b', 'RFC', '1213', 'see', 'section', '4.2', 'units/sec', 'END', 'BEGIN',
-         'MACRO', '--', 'comment']
+         'MACRO', '--', 'comment', 'inter-', 're-', '-', 'non-']
 
 
 def gen_text(rng):
@@ -154,6 +155,9 @@ def run(ctx):
             # cuts the word must not cut an escape in two
             texts['obj.description'] = 'x' * (66 + i) + '\\' + 'n' + 'y' * 20 + ' tail'
             texts['oi.description'] = 'w' * (66 + i) + '\\\\' + 'z' * 30
+            # words hyphenated across a line end: flowing a text joins lines with a blank, it never rejoins words
+            texts['nt.description'] = 'an inter-%sface with re-%sentrant co- %s operative parts' % (
+                ('\n', '\r\n', '\r', '\n   ')[i % 4], ('\r\n  ', '\n')[i % 2], ('\n', '\t\n')[i % 2])
         gen_on = (i % 4) != 3
         identity = (i % 2) == 1
         flt = (lambda sym, t: t) if identity else None
@@ -187,7 +191,11 @@ def run(ctx):
                 res.oracle_failures.append({'key': 'not-compiled', 'what': '%s backend: status %s (%s)' % (be, st.get('ACME-TEXT-MIB'), err), 'input': inp})
                 continue
             if be == 'json':
-                doc = json.loads(out['ACME-TEXT-MIB'])
+                try:
+                    doc = json.loads(out['ACME-TEXT-MIB'])
+                except ValueError as e:
+                    res.oracle_failures.append({'key': 'json-unreadable', 'what': 'the JSON document cannot be read back: %s' % e, 'input': inp})
+                    continue
                 for slot, src in texts.items():
                     who, key = slot.split('.')
                     rec = doc.get(SYMBOL[who], {})
@@ -272,7 +280,7 @@ def replay(payload):
     texts = inp['texts']
     flt = (lambda sym, t: t) if inp.get('identity_filter') else None
     mib = TEMPLATE % texts
-    be = 'json' if key in ('json-text',) else 'pysnmp'
+    be = 'json' if key in ('json-text', 'json-unreadable') else 'pysnmp'
     st, out, comp = pipeline.compile_set({'ACME-TEXT-MIB': mib}, backend=be, genTexts=inp['genTexts'], textFilter=flt, dialect='smiV2')
     if str(st.get('ACME-TEXT-MIB')) != 'compiled':
         return {'fails': True}
@@ -291,7 +299,12 @@ def replay(payload):
                 got = calls[-1][0] if calls else None
             return {'fails': not isinstance(got, str) or drop_ws(got) != drop_ws(texts[inp['slot']])}
         return {'fails': False}
-    doc = json.loads(out['ACME-TEXT-MIB'])
+    try:
+        doc = json.loads(out['ACME-TEXT-MIB'])
+    except ValueError:
+        return {'fails': True}
+    if 'slot' not in inp:
+        return {'fails': False}
     who, k = inp['slot'].split('.')
     got = doc.get(SYMBOL[who], {}).get(k)
     want = texts[inp['slot']] if inp.get('identity_filter') else default_filter(k, texts[inp['slot']])
